@@ -109,6 +109,17 @@ fn campaign_inner(ctx: &mut Ctx, target: &'static str, section: &str, total_runs
     let scratch = fuzz_dir.join(format!("run-{target}-{}", std::process::id()));
     let _ = std::fs::remove_dir_all(&scratch);
     let jobs = crate::engine::WORKERS as u64;
+    // libFuzzer dictionary: the string literals of the source tree under test (see `dict`)
+    let _ = std::fs::create_dir_all(&scratch);
+    let dict_path = scratch.join("dictionary");
+    {
+        let mut text = String::new();
+        for s in &crate::dict::dict().strings {
+            let esc: String = s.bytes().map(|b| if b.is_ascii_alphanumeric() { (b as char).to_string() } else { format!("\\x{b:02x}") }).collect();
+            text.push_str(&format!("\"{esc}\"\n"));
+        }
+        let _ = std::fs::write(&dict_path, text);
+    }
     let mut children = Vec::new();
     for j in 0..jobs {
         let corpus = scratch.join(format!("corpus{j}"));
@@ -129,6 +140,7 @@ fn campaign_inner(ctx: &mut Ctx, target: &'static str, section: &str, total_runs
             .arg("-timeout=30")
             .arg("-rss_limit_mb=4096")
             .arg("-print_final_stats=1")
+            .arg(format!("-dict={}", dict_path.display()))
             .arg(format!("-artifact_prefix={}/", art.display()))
             .stdout(Stdio::null());
         // libFuzzer's log goes to a file: a pipe would fill up while we poll for the exit
